@@ -32,6 +32,7 @@ def cfg(emod, eres, **c):
 def models(tier, seed):
     if tier == "quick":
         return [("2 levels", cfg(23, seed % 23, N0=4, T0=2, MaxLev=2, MaxFine=1)),
+                ("2 levels, two fine boxes (stacked / side by side / overhanging)", cfg(7, seed % 7, N0=3, T0=2, MaxLev=2, MaxFine=2)),
                 ("3 levels", cfg(61, seed % 61, N0=3, T0=2, MaxLev=3, MaxFine=1))]
     return [("2 levels, 2 fine boxes", cfg(9, seed % 9, N0=4, T0=2, MaxLev=2, MaxFine=2)),
             ("3 levels", cfg(5, seed % 5, N0=3, T0=2, MaxLev=3, MaxFine=1))]
@@ -188,7 +189,8 @@ def run(chk, replay):
         v = run_scenario(chk, sc, cfgseed, axes, serial, fields, default_pos=dflt)
         sigs = util.sig_str(sc["sig"], axes, serial, "default-pos" if dflt else "pos")
         s = sc["sig"]
-        triv = s[0] == 1 and s[3] == [["between-centres"]]
+        lv0 = s[3]["0"] if isinstance(s[3], dict) else s[3][0]
+        triv = s[0] == 1 and lv0[0] == ["between-centres"]
         chk.executed(sigs, not triv, sample={"mesh": sc["mesh"], "pos_unit": sc["pos"], "lim": sc["lim"], "axes": axes,
                                              "serial": serial, "fields": fields})
         chk.traces += 1
